@@ -29,3 +29,15 @@ Definition decrypt (key c : bytes) : option bytes :=
     | None => open_old key n box
     end.
 End Crypto.
+
+(* deriveKey: the node key is argon2id over the base64 text of context ++ passphrase, salted with
+   blake2b-128 of the same bytes — the WHOLE passphrase, byte for byte.  Primitives are parameters. *)
+Section Derive.
+Variable b64 : bytes -> bytes.                 (* base64.StdEncoding *)
+Variable salt_of : bytes -> bytes.             (* blake2b-128 *)
+Variable argon : bytes -> bytes -> bytes.      (* argon2.IDKey password salt (1, 8, 1, 32) *)
+Definition derive_key (master context : bytes) : bytes :=
+  let combined := context ++ master in
+  argon (b64 combined) (salt_of combined).
+End Derive.
+
